@@ -12,6 +12,9 @@ NA = SR.NA
 
 
 def run(rep, prog, tier):
+    from .hidden import no_hidden_state
+    rep.rule('R01.state', 'no hidden state in the anchored modules: no function writes a module-level object, no caching decorator / cached property')
+    no_hidden_state(rep, 'R01.state', prog, ['Network/NodalAnalysis/node_analysis.py', 'Network/NodalAnalysis/bias_point_analysis.py', 'Network/NodalAnalysis/solution.py', 'Network/NodalAnalysis/label_mapping.py', 'Network/network.py', 'Network/elements.py'])
     rep.rule('R01.space', 'every index, slice, product, stack and solve of the MNA assembly and of the solution read-back joins equal label spaces (index-space typing)')
     rep.rule('R01.layout', 'coefficient matrix is laid out (N+V) x (N+V), right-hand side (N+V) with N = non-reference nodes, V = ideal voltage sources')
     rep.rule('R01.sign', 'incidence sign table: B +1/-1 at node1/node2, Q -1/+1, Y diagonal +sum / off-diagonal -Y, voltage = phi(node1) - phi(node2); relations between assembly and read-back signs')
@@ -80,8 +83,22 @@ def layout(rep, interps):
         rep.ob('R01.layout', name, ok, ' × '.join(show(a) for a in arr.axes))
 
 
-def _return_signs(fn):
-    """[(terminal, sign)] for `if <x>.nodeK == y: return ±1` chains"""
+def _return_signs(fn, prog=None):
+    """[(terminal, sign)] of the nested direction function of the voltage-source incidence: value returned when the node is node1 / node2"""
+    if prog is not None:
+        inner = next((n for n in ast.walk(fn) if isinstance(n, ast.FunctionDef) and n is not fn), None)
+        if inner is not None:
+            ev = Evaluator(prog)
+            m = prog.mod(NA)
+            t = ev.call_fn(inner, m, [A('vs'), A('node')], {}, {'__parent__': None, 'network': A('network')}, 1)
+            out = []
+            for pc, leaf in paths_of(t):
+                trues = [g for g, v in pc if v]
+                c = as_poly(leaf).real_const() if isinstance(leaf, (Poly, int)) else None
+                if len(trues) == 1 and c in (1, -1):
+                    for term in ('node1', 'node2'):
+                        if f"'{term}'" in trues[0]: out.append((term, int(c)))
+            if out: return out
     out = []
     for st in ast.walk(fn):
         if isinstance(st, ast.If) and st.body and isinstance(st.body[0], ast.Return):
@@ -100,7 +117,7 @@ def signs(rep, prog, interps):
     table = {}
     # B: voltage_source_incidence_matrix (value returned by the nested direction function, stored at [node, vs])
     f = prog.funcs.get(f'{NA}::voltage_source_incidence_matrix')
-    rs = _return_signs(f.node) if f else []
+    rs = _return_signs(f.node, prog) if f else []
     for term, sg in rs: table[('B', term)] = sg
     # Q and Delta: constants stored at incidence sites (from the abstract run)
     for e in ('mna', 'ssm'):
@@ -176,18 +193,19 @@ def _readback_signs(prog):
     p = as_poly(first) if isinstance(first, (Poly, int)) else None
     if p is not None and p.single() is not None and '_voltage_source_currents' in repr(p.key()):
         s_read = 1 if p.single()[1][0] > 0 else -1
+    from ..prog import returned_expr
     f = prog.func(NA, 'current_source_incidence_vector')
-    r = [n for n in ast.walk(f.node) if isinstance(n, ast.Return)]
-    if r and isinstance(r[0].value, ast.BinOp) and isinstance(r[0].value.op, ast.MatMult): s_rhs = 1
-    if r and isinstance(r[0].value, ast.UnaryOp) and isinstance(r[0].value.op, ast.USub): s_rhs = -1
+    rv = returned_expr(f.node)
+    if isinstance(rv, ast.BinOp) and isinstance(rv.op, ast.MatMult): s_rhs = 1
+    if isinstance(rv, ast.UnaryOp) and isinstance(rv.op, ast.USub): s_rhs = -1
     f = prog.func(NA, 'nodal_analysis_constants_vector')
     src = ast.unparse(f.node)
     for n in ast.walk(f.node):
         if isinstance(n, ast.ListComp) and 'element.V' in ast.unparse(n.elt):
             s_v = -1 if isinstance(n.elt, ast.UnaryOp) and isinstance(n.elt.op, ast.USub) else 1
-    for n in ast.walk(f.node):
-        if isinstance(n, ast.Return) and isinstance(n.value, ast.Call) and 'hstack' in ast.unparse(n.value.func):
-            parts = n.value.args[0].elts if n.value.args and isinstance(n.value.args[0], ast.Tuple) else []
+    for n in [returned_expr(f.node)]:
+        if isinstance(n, ast.Call) and 'hstack' in ast.unparse(n.func):
+            parts = n.args[0].elts if n.args and isinstance(n.args[0], ast.Tuple) else []
             for prt in parts:
                 if isinstance(prt, ast.UnaryOp) and isinstance(prt.op, ast.USub):
                     nm = ast.unparse(prt.operand)
